@@ -33,7 +33,7 @@ CHECKS = {
  "C06": dict(engine="E1", ref="8/C06",
    technique="explicit-state BFS over real heapq.Queue with update callback, last-reported-position oracle",
    text="All histories over distinct elements with a recording update callback; after every transition last reported position == Peek offset for every held element; Add's return value; Remove(pos) removes that element.",
-   note="Small scope + an unmerged enumeration to depth 5/6; independent of heap-order validity."+LONG+"heap-long, 17..1025/4097 elements."),
+   note="Small scope + an unmerged enumeration to depth 5/6 + a configuration in which distinct elements tie under the order; independent of heap-order validity."+LONG+"heap-long, 17..1025/4097 elements."),
  "C07": dict(engine="E1", ref="8/C07",
    technique="explicit-state BFS to closure over real queue.Queue objects, slice-deque reference, poisoned-dead-slot twin",
    text="Every reachable (head,n,len,cap) state of the ring buffer up to the length bound from 9 initial capacities, every operation from each, all observers (Len IsEmpty Front Peek(+-) Each Slice) compared with a reference deque; a twin with poisoned dead slots must observe identically.",
